@@ -3,7 +3,7 @@
    the chain hypotheses of SafeProofs for every parser built without the HTML plugin. *)
 From Coq Require Import String Permutation.
 From MdIt Require Import Prims Tables Ruler Tree Render Block Inline Core Dispatch RulerProofs RulerRefine CacheProofs PairsProofs.
-From MdIt Require SafeProofs LineProofs InlineDepthProofs TreeDepthProofs.
+From MdIt Require SafeProofs LineProofs InlineDepthProofs TreeDepthProofs LinkSafeProofs LinkAllProofs.
 From Coq Require Import Lia.
 Local Open Scope list_scope.
 Local Open Scope N_scope.
@@ -283,3 +283,15 @@ Proof.
   intros Hc Hcc Hd. destruct (parse_ok_chains _ _ _ _ Hd) as (bc & ic & Hb & Hi).
   eapply TreeDepthProofs.parse_tree_depth; [exact Hcc|exact Hi|eapply build_md_no_emph; eassumption|exact Hd].
 Qed.
+
+(* C04: the emphasis-table hypothesis of LinkSafeProofs holds for every parser built from the shipped plugins *)
+Lemma emph_links good m : md_pairs_emph m = true -> LinkSafeProofs.md_pairs_ok good m = true.
+Proof.
+  unfold md_pairs_emph, pairs_emph, LinkSafeProofs.md_pairs_ok. rewrite !forallb_forall. intros H p Hp. specialize (H p Hp).
+  unfold fns_emph, LinkSafeProofs.fns_ok in *. rewrite forallb_forall in *. intros o Ho. specialize (H o Ho). destruct o as [k|]; [|reflexivity].
+  destruct k; try discriminate H; reflexivity.
+Qed.
+
+Theorem shipped_urls_safe cfg nest fuel src d : snd (parse fuel (build_md cfg nest) src) = inr d ->
+  LinkSafeProofs.raw_free LinkAllProofs.url_safe (d_root d) = true.
+Proof. apply LinkAllProofs.parse_urls_safe. apply emph_links. apply build_md_pairs_emph. Qed.
